@@ -236,6 +236,7 @@ type loopHarness struct {
 	done           chan struct{}
 	cancelAt       int // chunk count at which the hook injects a superseding request (0 = never)
 	injected       bool
+	injectDone     bool
 	inject         func()
 	cancelledScans int
 	publishes      int
@@ -333,12 +334,24 @@ func TestVerifC08_MatcherLoop(t *testing.T) {
 		verifHook = func(point string, a, b int) {
 			switch point {
 			case "scan.counted":
-				if h.cancelAt > 0 && a == h.cancelAt && !h.injected && h.inject != nil {
+				h.mu.Lock()
+				fire := h.cancelAt > 0 && a == h.cancelAt && !h.injected && h.inject != nil
+				inject := h.inject
+				if fire {
 					h.injected = true
-					h.inject()
+				}
+				h.mu.Unlock()
+				if fire {
+					inject()
+					// only now has the superseding request reached the matcher: the test goes on after this
+					h.mu.Lock()
+					h.injectDone = true
+					h.mu.Unlock()
 				}
 			case "loop.publish":
+				h.mu.Lock()
 				h.publishes++
+				h.mu.Unlock()
 			}
 		}
 		defer func() { verifHook = nil }()
@@ -352,7 +365,7 @@ func TestVerifC08_MatcherLoop(t *testing.T) {
 		var trace []string
 		wantCancel := false
 		for s := 0; s < nsteps; s++ {
-			switch rapid.SampledFrom([]string{"push", "push", "query", "query", "query-cancel-at", "toggle-sort", "wait"}).Draw(t, "op") {
+			switch rapid.SampledFrom([]string{"push", "push", "query", "query", "query-cancel-at", "query-cancel-at", "toggle-sort", "wait"}).Draw(t, "op") {
 			case "push":
 				n := rapid.SampledFrom([]int{1, 30, 100, 150, 400, 900}).Draw(t, "npush")
 				for i := 0; i < n; i++ {
@@ -372,26 +385,53 @@ func TestVerifC08_MatcherLoop(t *testing.T) {
 				// a second query change arrives exactly after the k-th chunk of the scan of the first
 				q1 := editQuery(t, q)
 				q2 := editQuery(t, q1)
-				k := rapid.IntRange(1, 8).Draw(t, "cancelAtChunk")
+				// (a scan reports after every chunk: the k-th report exists when there are at least k chunks)
+				snapNow, _, _ := h.cl.Snapshot(0)
+				if len(snapNow) < 3 && rapid.Bool().Draw(t, "moreInputFirst") {
+					// more input has arrived by the time of the query change (no request of its own)
+					for i := 0; i < 250; i++ {
+						l := "zzz"
+						if rapid.IntRange(0, 9).Draw(t, "hit") < 2 {
+							l = rapid.SampledFrom(pool).Draw(t, "l")
+						}
+						h.cl.Push([]byte(l))
+					}
+					snapNow, _, _ = h.cl.Snapshot(0)
+					trace = append(trace, "push 250")
+				}
+				maxK := imin(8, len(snapNow)-1)
+				if maxK < 1 {
+					maxK = 1
+				}
+				k := rapid.IntRange(1, maxK).Draw(t, "cancelAtChunk")
 				h.mu.Lock()
-				h.cancelAt, h.injected = k, false
+				h.cancelAt, h.injected, h.injectDone = k, false, false
 				qq2, so := q2, sortOn
-				h.inject = func() { h.cancelledScans++; h.reset(qq2, true, false, so) }
+				h.inject = func() { h.reset(qq2, true, false, so) }
 				h.mu.Unlock()
 				trace = append(trace, fmt.Sprintf("reset(%q, cancel=true), then reset(%q, cancel=true) after chunk %d", q1, q2, k))
 				h.reset(q1, true, false, sortOn)
 				// let the matcher reach the cancellation point (or finish if the scan is shorter)
-				waitUntil(2*time.Second, func() bool { h.mu.Lock(); defer h.mu.Unlock(); return h.injected || h.publishes > 0 && len(h.seen) > 0 })
-				time.Sleep(2 * time.Millisecond)
+				waitUntil(2*time.Second, func() bool {
+					h.mu.Lock()
+					defer h.mu.Unlock()
+					return h.injectDone || !h.injected && h.publishes > 0 && len(h.seen) > 0
+				})
 				h.mu.Lock()
-				if h.injected {
+				h.cancelAt, h.inject = 0, nil // no injection from here on
+				injected := h.injected
+				h.mu.Unlock()
+				if injected {
+					// the injected request is on its way: it must have reached the matcher before the
+					// next one is made (requests are served by age)
+					if !waitUntil(60*time.Second, func() bool { h.mu.Lock(); defer h.mu.Unlock(); return h.injectDone }) {
+						t.Fatalf("harness: the injected request did not return")
+					}
 					q = q2
 					wantCancel = true
 				} else {
 					q = q1
 				}
-				h.cancelAt, h.inject = 0, nil
-				h.mu.Unlock()
 			case "toggle-sort":
 				sortOn = !sortOn
 				trace = append(trace, fmt.Sprintf("toggle-sort -> %v; reset(%q, cancel=true)", sortOn, q))
@@ -410,7 +450,7 @@ func TestVerifC08_MatcherLoop(t *testing.T) {
 		want := h.oracle(last)
 		// quiescence: the last published merger is the answer to the last request
 		var final *Merger
-		ok := waitUntil(15*time.Second, func() bool {
+		ok := waitUntil(60*time.Second, func() bool {
 			h.mu.Lock()
 			defer h.mu.Unlock()
 			if len(h.seen) == 0 {
